@@ -15,7 +15,7 @@ from typing import Any
 
 def gen_work(rng: random.Random, n_layers: int, factors: tuple = ('A', 'G'),
              ) -> dict[str, dict[str, float]]:
-    style = rng.choice(['random', 'ties', 'zeros', 'wide', 'cubic'])
+    style = rng.choice(['random', 'ties', 'zeros', 'wide', 'cubic', 'huge'])
     work: dict[str, dict[str, float]] = {}
     names = [f'layer{i}' for i in range(n_layers)]
     rng.shuffle(names)
@@ -30,6 +30,11 @@ def gen_work(rng: random.Random, n_layers: int, factors: tuple = ('A', 'G'),
                 c = rng.choice([1e-3, 1.0, 1e6, 7.5])
             elif style == 'cubic':
                 c = rng.randint(1, 12) ** 3
+            elif style == 'huge':
+                # n**3 of realistic factor sizes next to tiny ones: loads
+                # whose differences are below float32 resolution
+                c = rng.choice([4096 ** 3, 4096 ** 3 + 1, 256 ** 3 + 1,
+                                256 ** 3, 8 ** 3, 16 ** 3, 1024 ** 3])
             else:
                 c = rng.randint(0, 50)
             d[f] = c
@@ -67,6 +72,19 @@ def check_kaisa(plan: dict[str, Any], bad: Any, stats: Any) -> None:
                 error=repr(e))
             return
     stats['assignments_built'] += len(asg)
+    # a second, different assignment over the same layer names built in the
+    # same process (another model, another preconditioner) must not change
+    # what the first one answers
+    decoy_rng = random.Random(len(work) * 7919 + W * 31 + k)
+    decoy_work = {n: {f: float(decoy_rng.choice([1, 5, 9, 2]))
+                      for f in fs} for n, fs in work.items()}
+    decoy_k = decoy_rng.choice([d for d in range(1, W + 1) if W % d == 0])
+    for r in list(asg)[:4]:
+        KAISAAssignment(decoy_work, local_rank=r, world_size=W,
+                        grad_worker_fraction=decoy_k / W,
+                        group_func=lambda members: ('decoy', tuple(sorted(
+                            members))), colocate_factors=not colocate)
+    stats['decoy_assignments_built'] += 1
     r0 = min(asg)
     a0 = asg[r0]
     layers = list(work)
@@ -264,6 +282,20 @@ def check_neox_assignment(plan: dict[str, Any], bad: Any, stats: Any) -> None:
     finally:
         dist.new_group = real
     stats['assignments_built'] += W
+    # decoy assignments over the same layer names (see check_kaisa)
+    dist.new_group = lambda *a, **k: ('decoy',)
+    try:
+        for r in range(min(W, 4)):
+            stage = topo.get_coord(r).pipe
+            w = plan['work'][str(stage)]
+            names = list(w)
+            decoy = {n: {f: float((i * 7 + 3) % 5 + 1) for f in w[n]}
+                     for i, n in enumerate(reversed(names))}
+            GPTNeoXAssignment(decoy, local_rank=r, topology=topo,
+                              data_parallel_group=None,
+                              model_parallel_group=None)
+    finally:
+        dist.new_group = real
     for r in range(W):
         try:
             _neox_rank_checks(plan, bad, stats, r, asg, topo, dpl, mpl,
